@@ -448,16 +448,17 @@ class BlochSphereRotation(Gate):
             # Gates of other kinds are compared through their operation, as they do when they are on the left.
             return Gate.__eq__(self, other)
 
-        if self.qubit != other.qubit:
-            return False
-
         # Different (axis, angle, phase) triples can denote the same operator, e.g. a rotation by pi about -x
         # with phase -pi/2 is X, so compare the operators, including their phase.
         from opensquirrel.utils.matrix_expander import can1
 
-        return np.allclose(
-            can1(self.axis, self.angle, self.phase), can1(other.axis, other.angle, other.phase), atol=ATOL
-        )
+        self_matrix = can1(self.axis, self.angle, self.phase)
+        other_matrix = can1(other.axis, other.angle, other.phase)
+        if self.qubit != other.qubit and not np.allclose(self_matrix, self_matrix[0, 0] * np.eye(2), atol=ATOL):
+            # On different qubits, two rotations are the same operation only if both are the same multiple of 1.
+            return False
+
+        return np.allclose(self_matrix, other_matrix, atol=ATOL)
 
     def accept(self, visitor: IRVisitor) -> Any:
         visitor.visit_gate(self)
